@@ -10,7 +10,15 @@ import (
 func init() {
 	vpRegister("VPH_C09_filter", VPH_C09_filter)
 	vpRegister("VPH_C09_gate", VPH_C09_gate)
+	vpRegister("VPH_C09_textual", VPH_C09_textual)
+	vpRegister("VPH_C09_open_connection", VPH_C09_open_connection)
 }
+
+// VPH_C09_open_connection: the host filter and the secure-port rule are applied to every request,
+// not once per connection: a client whose connection was opened while it was admitted is refused
+// from the first call after an update that excludes it (real connection loop, update between two
+// calls of one connection; shared with C16's harness).
+func VPH_C09_open_connection() { vpUpdateBetweenCalls([]int{1, 2}) }
 
 func vpMapped(b []byte) bool {
 	ok := true
@@ -223,4 +231,76 @@ func VPH_C09_gate() {
 		vpAssert(len(env.fs.log) == 0, "rejected-request-reaches-no-backend-call")
 	}
 	vpAssert(reply.Header.Xid == call.Header.Xid, "xid-echoed")
+}
+
+// VPH_C09_textual: the same membership rule over *textual* allow-list entries and client addresses
+// (menus of spellings: dotted quads, IPv4-mapped IPv6 in both notations, plain IPv6, networks of both
+// families and of every boundary prefix length, malformed entries), with the real net.ParseIP and
+// net.ParseCIDR: both filters agree with each other and with the rule applied to the parsed bytes.
+// (The symbolic harnesses stub the parsers; code that rewrites the entry's text before parsing it is
+// only visible here.)
+type vpTextEntry struct {
+	text string
+	e    vpAllowEntry
+}
+
+func vpV4(a, b, c, d byte) []byte { return []byte{0, 0, 0, 0, 0, 0, 0, 0, 0, 0, 0xff, 0xff, a, b, c, d} }
+
+func VPH_C09_textual() {
+	v6 := func(hi, lo uint64) []byte {
+		b := make([]byte, 16)
+		for i := 0; i < 8; i++ {
+			b[i] = byte(hi >> uint(56-8*i))
+			b[8+i] = byte(lo >> uint(56-8*i))
+		}
+		return b
+	}
+	entries := []vpTextEntry{
+		{"10.0.0.5", vpAllowEntry{kind: 1, addr: vpV4(10, 0, 0, 5)}},
+		{"::ffff:10.0.0.5", vpAllowEntry{kind: 1, addr: vpV4(10, 0, 0, 5)}},
+		{"::ffff:a00:5", vpAllowEntry{kind: 1, addr: vpV4(10, 0, 0, 5)}},
+		{"2001:db8::1", vpAllowEntry{kind: 1, addr: v6(0x20010db800000000, 1)}},
+		{"::1", vpAllowEntry{kind: 1, addr: v6(0, 1)}},
+		{"10.0.0.0/8", vpAllowEntry{kind: 3, addr: []byte{10, 0, 0, 0}, n: 8}},
+		{"10.0.0.5/32", vpAllowEntry{kind: 3, addr: []byte{10, 0, 0, 5}, n: 32}},
+		{"0.0.0.0/0", vpAllowEntry{kind: 3, addr: []byte{0, 0, 0, 0}, n: 0}},
+		{"2001:db8::/32", vpAllowEntry{kind: 4, addr: v6(0x20010db800000000, 0), n: 32}},
+		{"::/0", vpAllowEntry{kind: 4, addr: v6(0, 0), n: 0}},
+		{"::1/128", vpAllowEntry{kind: 4, addr: v6(0, 1), n: 128}},
+		{"10.0.0.5/33", vpAllowEntry{kind: 2}},
+		{"not-an-address", vpAllowEntry{kind: 0}},
+		{"", vpAllowEntry{kind: 0}},
+	}
+	type client struct {
+		text string
+		ip   []byte
+	}
+	clients := []client{
+		{"10.0.0.5", vpV4(10, 0, 0, 5)}, {"::ffff:10.0.0.5", vpV4(10, 0, 0, 5)}, {"10.1.2.3", vpV4(10, 1, 2, 3)},
+		{"11.0.0.1", vpV4(11, 0, 0, 1)}, {"::1", v6(0, 1)}, {"::2", v6(0, 2)}, {"0:0:1::1", v6(0x0000000000010000, 1)},
+		{"2001:db8::7", v6(0x20010db800000000, 7)}, {"2001:db9::7", v6(0x20010db900000000, 7)}, {"garbage", nil},
+	}
+	n := vpChoose("entries", 1, 2)
+	var list []string
+	var es []*vpAllowEntry
+	for i := 0; i < n; i++ {
+		t := entries[vpChoose("entry", 0, len(entries)-1)]
+		list = append(list, t.text)
+		e := t.e
+		es = append(es, &e)
+	}
+	c := clients[vpChoose("client", 0, len(clients)-1)]
+	want := false
+	if c.ip != nil {
+		for _, e := range es {
+			want = vpOr(want, e.matches(c.ip))
+		}
+	}
+	got := isIPAllowed(c.text, list)
+	env := vpServer(vpNewFS(), ExportOptions{AllowedIPs: list})
+	got2 := env.srv.isIPAllowed(c.text)
+	vpObserve("request-filter", got)
+	vpObserve("connection-filter", got2)
+	vpAssert(got == got2, "textual-both-filters-agree")
+	vpAssert(got == want, "textual-filter-equals-membership-rule")
 }
